@@ -6,6 +6,8 @@ from fractions import Fraction
 
 import numpy as np
 
+from .. import scenarios as SC
+
 from .. import weaver_common as W
 from ..core import floats
 
@@ -58,6 +60,8 @@ def gen(rng):
 
 
 def cases(rng, tier):
+    for _sc in range(6 if tier != "thorough" else 60):
+        yield SC.gen(rng, ['csv_twice', 'readonly_view_base'][_sc % 2])
     n_ = {"quick": 300, "thorough": 5000}.get(tier, 200)
     # systematically: every operation kind as the ONLY step before restore_original, then one more step
     for kind in W.DOMAIN + W.RESHAPE:
@@ -75,6 +79,8 @@ def cases(rng, tier):
 
 
 def run_impl(c):
+    if isinstance(c, dict) and "scenario" in c:
+        return SC.run(c)
     io = W.run_program(c)
     c["_lines"] = io["lines"]
     # restore == fresh object: run the continuation after the last restore on a new Weaver
@@ -91,14 +97,20 @@ def run_impl(c):
 
 
 def request(c):
+    if isinstance(c, dict) and "scenario" in c:
+        return []
     return c["_lines"]
 
 
 def compare(c, io, mo):
+    if isinstance(c, dict) and "scenario" in c:
+        return None
     return W.compare_program(c, io, mo)
 
 
 def oracle(c, io):
+    if isinstance(c, dict) and "scenario" in c:
+        return io.get("finding")
     steps = io["steps"]
     if "err" in steps[0]:
         return f"valid constructor raised {steps[0]['err']}"
@@ -152,6 +164,8 @@ def oracle(c, io):
 
 
 def tags(c, io, mo):
+    if isinstance(c, dict) and "scenario" in c:
+        return ["scenario=" + c["scenario"]]
     t = [f"len={len(c['ops'])}", "list-input" if c["as_list"] else "array-input"]
     for o in c["ops"]:
         t.append(f"op={o['op']}")
@@ -164,6 +178,8 @@ def tags(c, io, mo):
 
 
 def nontrivial_key(c, io, mo):
+    if isinstance(c, dict) and "scenario" in c:
+        return c
     names = [o["op"] for o in c["ops"]]
     if len(names) >= 3 and any(n in W.RESHAPE for n in names) and not any("err" in s for s in io["steps"]):
         return {"x": c["x"], "y": c["y"], "ops": [{k: v for k, v in o.items() if not k.startswith("_")} for o in c["ops"]]}
